@@ -14,6 +14,9 @@ from vf.gen import qmodels as G
 
 RULE = ("case = generated quantized-model description (functional DAG over the "
         "layer classes of the custom-object table except QConv2DTranspose, "
+        "including the cell classes inside the generic Keras RNN layer (single / "
+        "stacked) and library layers inside the stock Bidirectional and "
+        "TimeDistributed wrappers, "
         "quantizers from the C09 option lattice in object and string form, "
         "weights and probe batch from seeds stored in the case) x the three "
         "routes json / clone / h5. Non-trivial = the original model builds, has "
@@ -36,6 +39,9 @@ ASSUMPTIONS = [
     "does not emit (C09 defect) is attributed to that option iff the same "
     "model without the option passes",
     "HDF5 files live in a fresh tempfile.mkdtemp() removed in finally",
+    "for a stock Keras wrapper layer (RNN, Bidirectional, TimeDistributed) the "
+    "reported quantizers are those of the nested library objects: "
+    "get_quantizers() where it exists, else the cell's public `quantizers` list",
 ]
 BUDGET_S = {"quick": 48, "thorough": 780}
 _LAYERS = ["QDense", "QConv1D", "QConv2D", "QDepthwiseConv2D", "QSeparableConv1D",
@@ -43,6 +49,11 @@ _LAYERS = ["QDense", "QConv1D", "QConv2D", "QDepthwiseConv2D", "QSeparableConv1D
            "QActivation", "QAdaptiveActivation", "QBatchNormalization",
            "QConv2DBatchnorm", "QDepthwiseConv2DBatchnorm", "QAveragePooling2D",
            "QGlobalAveragePooling2D", "QScaleShift"]
+# library classes reached through stock Keras wrapper layers
+_WRAPPED = ["L:RNN", "cell:QSimpleRNNCell", "cell:QLSTMCell", "cell:QGRUCell",
+            "rnn_stacked", "cell_state_ne_recurrent", "cell_no_state_q",
+            "L:Bidirectional", "L:TimeDistributed", "wrapped:QLSTM",
+            "wrapped:QDense"]
 REQUIRED_LABELS = {
     "quick": ["L:" + c for c in _LAYERS] + [
         "route_ok:json", "route_ok:clone", "route_ok:h5", "pred_compared",
@@ -54,8 +65,8 @@ REQUIRED_LABELS = {
         "mask_bool", "canonical", "frozen_layer",
         "bn_no_affine", "gru_reset_after", "stock_act:hard_sigmoid",
         "stock_act:sigmoid", "stock_act:tanh", "stock_act:softmax",
-        "L:Dense", "L:Conv2D", "L:LSTM", "L:BatchNormalization"],
-    "thorough": ["L:" + c for c in _LAYERS] + [
+        "L:Dense", "L:Conv2D", "L:LSTM", "L:BatchNormalization"] + _WRAPPED,
+    "thorough": ["L:" + c for c in _LAYERS] + _WRAPPED + [
         "route_ok:json", "route_ok:clone", "route_ok:h5", "pred_compared",
         "q:quantized_hswish", "lossy", "api:predict", "masked_conv", "merge",
         "canonical", "hyp", "mask_fractional", "mask_gt_127"],
@@ -81,12 +92,59 @@ def _safe_str(q):
     return "<str raises %s>" % type(e).__name__
 
 
+def _nested_objects(obj):
+  subs = []
+  for attr in ("forward_layer", "backward_layer"):
+    if getattr(obj, attr, None) is not None:
+      subs.append(getattr(obj, attr))
+  if not subs and getattr(obj, "layer", None) is not None:
+    subs.append(obj.layer)
+  if getattr(obj, "cell", None) is not None:
+    subs.append(obj.cell)
+  if isinstance(getattr(obj, "cells", None), (list, tuple)):
+    subs.extend(obj.cells)
+  return subs
+
+
+def nested_class_label(obj):
+  """'RNN[QLSTMCell]', 'Bidirectional[QLSTM]', 'RNN[StackedRNNCells[...]]'."""
+  subs = _nested_objects(obj)
+  name = obj.__class__.__name__
+  if not subs:
+    return name
+  return "%s[%s]" % (name, ",".join(sorted(set(
+      nested_class_label(o) for o in subs))))
+
+
+def nested_quantizers(obj):
+  """Quantizers reported by the library objects nested in a stock Keras
+  wrapper layer (RNN(cell), RNN([cells]), Bidirectional, TimeDistributed):
+  each nested object's get_quantizers() or, for the cell classes, its public
+  `quantizers` list, in nesting order.  None if nothing nested reports any."""
+  if hasattr(obj, "get_quantizers"):
+    return list(obj.get_quantizers())
+  if isinstance(getattr(obj, "quantizers", None), list):
+    return list(obj.quantizers)
+  found, out = False, []
+  for sub in _nested_objects(obj):
+    q = nested_quantizers(sub)
+    if q is not None:
+      found = True
+      out.extend(q)
+  return out if found else None
+
+
 def quantizer_strings(model):
   out = []
   for layer in model.layers:
     if hasattr(layer, "get_quantizers"):
       out.append((layer.name, layer.__class__.__name__,
                   [_safe_str(q) for q in layer.get_quantizers()]))
+    else:
+      qs = nested_quantizers(layer)
+      if qs is not None:
+        out.append((layer.name, nested_class_label(layer),
+                    [_safe_str(q) for q in qs]))
   return out
 
 
@@ -146,9 +204,24 @@ def _qclasses(ld):
     c = G.qspec_class(spec)
     if c:
       out.add(c)
-  if "inner" in ld:
-    out |= _qclasses(ld["inner"])
+  for sub in G.sub_descs(ld):
+    out |= set(_qclasses(sub))
   return sorted(out)
+
+
+def cls_label(ld):
+  """Class key of a layer description: nested classes in brackets."""
+  subs = G.sub_descs(ld)
+  if not subs or ld["cls"] == "QBidirectional":
+    return ld["cls"]
+  inner = ",".join(sorted(set(cls_label(d) for d in subs)))
+  if "cells" in ld and (len(subs) > 1 or ld.get("kw", {}).get("as_list")):
+    inner = "StackedRNNCells[%s]" % inner
+  return "%s[%s]" % (ld["cls"], inner)
+
+
+_RNN_LIKE = ("QSimpleRNN", "QLSTM", "QGRU", "QSimpleRNNCell", "QLSTMCell",
+             "QGRUCell")
 
 
 def _single_layer_desc(desc, ld, in_shapes):
@@ -214,7 +287,8 @@ def find_culprit(desc, model, route, sub_check, exc_name=None, only_layer=None):
     except Exception:  # pylint: disable=broad-except
       pass
   for ld in desc["layers"]:
-    if not ld["cls"].startswith("Q") or ld["name"] not in in_shapes:
+    if not any(d["cls"].startswith("Q") for d in G.nested_descs(ld)) or (
+        ld["name"] not in in_shapes):
       continue
     if only_layer is not None and ld["name"] != only_layer:
       continue
@@ -222,7 +296,8 @@ def find_culprit(desc, model, route, sub_check, exc_name=None, only_layer=None):
     if d1 is None or not _still_fails(d1, route, sub_check, exc_name):
       continue
     target = d1["layers"][0]
-    holders = [target] + ([target["inner"]] if "inner" in target else [])
+    holders = G.nested_descs(target)
+    lname = cls_label(ld)
     for h in holders:
       for slot, spec in sorted(h.get("q", {}).items()):
         if spec is None:
@@ -230,9 +305,9 @@ def find_culprit(desc, model, route, sub_check, exc_name=None, only_layer=None):
         saved = h["q"][slot]
         if h["cls"] == "QActivation":
           repl = {"s": "quantized_relu(4,1)"}
-        elif slot == "recurrent_quantizer" and h["cls"] == "QGRU":
+        elif slot == "recurrent_quantizer" and h["cls"] in ("QGRU", "QGRUCell"):
           repl = {"s": "quantized_bits(4,0,1)"}
-        elif slot == "activation" and h["cls"] in ("QSimpleRNN", "QLSTM", "QGRU"):
+        elif slot == "activation" and h["cls"] in _RNN_LIKE:
           repl = {"s": "quantized_tanh(4)"}
         else:
           repl = _BENIGN.get(slot)
@@ -243,7 +318,7 @@ def find_culprit(desc, model, route, sub_check, exc_name=None, only_layer=None):
         h["q"][slot] = saved
         if r is False:
           c = G.qspec_class(spec)
-          return {"layer": ld["cls"], "slot": slot, "culprit_q": c,
+          return {"layer": lname, "slot": slot, "culprit_q": c,
                   "culprit_kind": _kind(c),
                   "form": "string" if "s" in spec else "object"}
     # no quantizer slot explains it: ablate the plain constructor options
@@ -258,8 +333,8 @@ def find_culprit(desc, model, route, sub_check, exc_name=None, only_layer=None):
         if saved_dt is not None:
           h["kw"]["mask_dtype"] = saved_dt
         if r is False:
-          return dict(none, layer=ld["cls"], culprit_option=key)
-    return dict(none, layer=ld["cls"])
+          return dict(none, layer=lname, culprit_option=key)
+    return dict(none, layer=lname)
   return none
 
 
@@ -388,8 +463,19 @@ def oracle_case(ctx, case, extra_labels=()):
   qn = 0
   for ld in desc["layers"]:
     labs.append("L:" + ld["cls"])
-    if ld["cls"] == "QBidirectional":
-      labs.append("L:" + ld["inner"]["cls"])
+    for sub in G.nested_descs(ld)[1:]:
+      labs.append(("cell:" if sub["cls"].endswith("Cell") else "L:") + sub["cls"])
+      if ld["cls"] != "QBidirectional":
+        labs.append("wrapped:" + sub["cls"])
+    if len(ld.get("cells", [])) > 1 or ld.get("kw", {}).get("as_list"):
+      labs.append("rnn_stacked")
+    for sub in G.nested_descs(ld):
+      if sub["cls"].endswith("Cell") and sub["cls"].startswith("Q"):
+        sq, rq = sub["q"].get("state_quantizer"), sub["q"].get("recurrent_quantizer")
+        if sq != rq:
+          labs.append("cell_state_ne_recurrent")
+        if sq is None and rq is not None:
+          labs.append("cell_no_state_q")
     if ld["cls"] in ("Add", "Concatenate", "Multiply"):
       labs.append("merge")
     if ld.get("kw", {}).get("mask") is not None:
@@ -410,8 +496,8 @@ def oracle_case(ctx, case, extra_labels=()):
     if ld["cls"] == "QBatchNormalization" and ld["kw"].get("center") is False and (
         ld["kw"].get("scale") is False):
       labs.append("bn_no_affine")
-    for h in (ld, ld.get("inner", {})):
-      if h.get("cls") == "QGRU" and h.get("kw", {}).get("reset_after"):
+    for h in G.nested_descs(ld):
+      if h.get("cls") in ("QGRU", "QGRUCell") and h.get("kw", {}).get("reset_after"):
         labs.append("gru_reset_after")
   for _, _, spec in G.all_qspecs(desc):
     if spec is None:
